@@ -327,7 +327,11 @@ dround_ddur(struct dt_d_s d, struct dt_ddur_s dur, bool nextp)
 		switch (d.typ) {
 			unsigned int mdays;
 		case DT_YMD:
-			if ((forw && d.ymd.d < tgt) ||
+			if (forw && nextp && d.ymd.d < tgt &&
+			    d.ymd.d == __get_mdays(d.ymd.y, d.ymd.m)) {
+				/* on the ultimo that stands in for TGT already */
+				goto next_month;
+			} else if ((forw && d.ymd.d < tgt) ||
 			    (!forw && d.ymd.d > tgt)) {
 				/* no month or year adjustment */
 				;
@@ -336,6 +340,7 @@ dround_ddur(struct dt_d_s d, struct dt_ddur_s dur, bool nextp)
 				 * next/prev date is requested */
 				;
 			} else if (forw) {
+			next_month:
 				if (LIKELY(d.ymd.m < GREG_MONTHS_P_YEAR)) {
 					d.ymd.m++;
 				} else {
